@@ -59,15 +59,19 @@ def _memset_zero_after(f, alloc_call, size_expr_text=None):
 
 def rule_C5(ctx, prog, label, rule='C5'):
     rr = RuleResult(rule, 'every fresh matrix is zeroed whatever the allocator hands back: calloc chain with post-dominating memset')
-    # (1) mzd_init takes its data from m4ri_mmc_calloc only
+    # (1) every assignment of an mzd_t data pointer takes it from m4ri_mmc_calloc (owners), from the parent's data
+    #     (windows) or is NULL - wherever the constructor code lives
     f = prog.func('mzd_init')
     srcs = []
-    for n in f.body.walk():
-        if n.kind == 'BinaryOperator' and n.op == '=':
-            l = strip(n.kids[0], casts=True)
-            if l.kind == 'MemberExpr' and l.name == 'data':
-                r = strip(n.kids[1], casts=True)
-                srcs.append((n, r))
+    for g_ in prog.all_funcs():
+        for n in g_.body.walk():
+            if n.kind == 'BinaryOperator' and n.op == '=':
+                l = strip(n.kids[0], casts=True)
+                if l.kind == 'MemberExpr' and l.name == 'data' and 'mzd_t' in ((l.kids[0].type or '') + (l.kids[0].dtype or '')) and 'cache' not in (l.kids[0].type or ''):
+                    r = strip(n.kids[1], casts=True)
+                    if r.kind == 'BinaryOperator' and r.op == '+' and '->data' in pp(r):
+                        continue     # window: parent's data + offset
+                    srcs.append((n, r))
     rr.instances += 1
     ok = bool(srcs) and all((r.kind == 'CallExpr' and callee_name(r) == 'm4ri_mmc_calloc') or is_null(r) for _n, r in srcs) and \
         any(r.kind == 'CallExpr' for _n, r in srcs)
@@ -156,6 +160,82 @@ def rule_C6(ctx, prog, label, rule='C6'):
             rr.ob(ok, dict(function=f.name, call=pp(c)[:70], role=role, verdict=why),
                   Finding(rule, '%s|%s|%s|%s' % (rule, f.name, cn, pp(dst)), c.loc, f.name,
                           '`%s`: %s - prior contents of the destination %s' % (pp(c)[:70], why, 'leak into the product' if flag == 0 else 'are wiped although the entry point accumulates'), {}, label))
+    # C6c: inside each kernel the clear parameter guards a complete zeroing of the destination that precedes all work
+    from .cfg import cfg_of
+    for kname, idx in sorted(CLEAR_PARAM.items()):
+        f = prog.func(kname)
+        rr.instances += 1
+        cpar = f.params[idx]
+        dpar = f.params[0]
+        g = cfg_of(f)
+        dom = g.dominators()
+        ok, why = False, 'no `if (%s)` block that zeroes %s' % (cpar.name, dpar.name)
+        for s_ in f.body.kids:
+            if s_.kind != 'IfStmt':
+                continue
+            c = strip(s_.kids[0], casts=True)
+            if c.kind == 'BinaryOperator' and c.op == '!=' and int_value(c.kids[1]) == 0:
+                c = strip(c.kids[0], casts=True)
+            if not (c.kind == 'DeclRefExpr' and c.refid == cpar.id):
+                continue
+            then = s_.kids[1]
+            zero_call = any(callee_name(x) == 'mzd_set_ui' and strip(x.kids[1], casts=True).kind == 'DeclRefExpr' and strip(x.kids[1], casts=True).refid == dpar.id
+                            and int_value(x.kids[2]) == 0 for x in then.find('CallExpr'))
+            row_loop = False
+            for lp in then.find('ForStmt'):
+                cc = strip(lp.kids[2])
+                if cc.kind == 'BinaryOperator' and pp(strip(cc.kids[1], casts=True)) == '%s->nrows' % dpar.name:
+                    if any(x.kind == 'BinaryOperator' and x.op == '=' and int_value(x.kids[1]) == 0 for x in lp.walk()):
+                        row_loop = True
+            if not (zero_call or row_loop):
+                why = 'the `if (%s)` block does not zero every row of %s' % (cpar.name, dpar.name)
+                continue
+            # it must precede every other statement that writes C: all later top-level statements come after it,
+            # and no earlier top-level statement calls a writer of C
+            ok, why = True, 'if (%s) zeroes %s before the accumulation' % (cpar.name, dpar.name)
+            bnode = g.stmt_node.get(s_.kids[0].uid)
+            for prev in f.body.kids:
+                if prev is s_:
+                    break
+                for x in prev.find('CallExpr'):
+                    if any(strip(a, casts=True).kind == 'DeclRefExpr' and strip(a, casts=True).refid == dpar.id for a in x.kids[1:]) and callee_name(x) not in ('mzd_row', 'mzd_row_const'):
+                        # harmless if that statement never falls through to the clear test (dispatch that returns)
+                        wn = _node_of(g, x)
+                        reach = set()
+                        stk = [wn] if wn is not None else []
+                        while stk:
+                            n_ = stk.pop()
+                            if n_.id in reach:
+                                continue
+                            reach.add(n_.id)
+                            for (_l, m_) in n_.succs:
+                                stk.append(m_)
+                        if bnode is None or bnode.id in reach:
+                            ok, why = False, '%s is already written by `%s` before it is cleared' % (dpar.name, pp(x)[:50])
+            # every return path passes the clear test or hands C to another routine
+            blocked = {bnode.id} if bnode is not None else set()
+            for cn_ in g.nodes:
+                if cn_.ast is not None and cn_.kind in ('stmt', 'branch'):
+                    for x in cn_.ast.find('CallExpr'):
+                        if callee_name(x) not in ('mzd_row', 'mzd_row_const') and any(strip(a, casts=True).kind == 'DeclRefExpr' and strip(a, casts=True).refid == dpar.id for a in x.kids[1:]):
+                            blocked.add(cn_.id)
+            seen_ = set()
+            stk = [g.entry]
+            while stk:
+                n_ = stk.pop()
+                if n_.id in seen_ or n_.id in blocked:
+                    continue
+                seen_.add(n_.id)
+                for (_l, m_) in n_.succs:
+                    stk.append(m_)
+            if ok and g.exit.id in seen_:
+                # allowed only for the documented empty-result short cut  C->nrows == 0 || C->ncols == 0
+                if not _only_empty_result_shortcut(g, seen_, dpar):
+                    ok, why = False, 'a return is reachable without testing `%s` and without handing %s to an overwriting routine' % (cpar.name, dpar.name)
+            break
+        rr.ob(ok, dict(kernel=kname, verdict=why),
+              Finding(rule, '%s|%s|clear-semantics' % (rule, kname), f.loc, kname,
+                      'kernel %s: %s - with clear set, rows of %s that receive no contribution keep their previous contents' % (kname, why, dpar.name), {}, label))
     rr.require_floor(12, 'kernel calls with a clear flag')
     return rr
 
@@ -186,3 +266,24 @@ def _no_write_between(f, fs, dst, call):
                 return True
         return False
     return False
+
+
+def _only_empty_result_shortcut(g, seen, dpar):
+    """returns reachable early are all guarded by a test that the *destination* is empty"""
+    for cn in g.nodes:
+        if cn.id in seen and cn.kind == 'stmt' and cn.ast.kind == 'ReturnStmt':
+            # its controlling branch must mention dpar->nrows == 0 / ncols == 0
+            ok = False
+            for (lab, pr) in cn.preds:
+                x = pr
+                hops = 0
+                while x is not None and x.kind == 'label' and x.preds and hops < 3:
+                    x = x.preds[0][1]
+                    hops += 1
+                if x is not None and x.kind == 'branch':
+                    t = pp(x.ast)
+                    if ('%s->nrows == 0' % dpar.name) in t or ('%s->ncols == 0' % dpar.name) in t:
+                        ok = True
+            if not ok:
+                return False
+    return True
